@@ -47,7 +47,9 @@ func longHeader(name string) string {
 }
 
 func clientExt(kind string) []httphead.Option {
-	pmd := func(params map[string]string) httphead.Option { return httphead.NewOption("permessage-deflate", params) }
+	pmd := func(params map[string]string) httphead.Option {
+		return httphead.NewOption("permessage-deflate", params)
+	}
 	switch kind {
 	case "pmd":
 		return []httphead.Option{pmd(nil)}
@@ -395,7 +397,9 @@ func main() {
 			for ri, req := range reqs {
 				for ti, tr := range trailers {
 					ri, ti, req, tr := ri, ti, req, tr
-					t.Do(func() string { return fmt.Sprintf("request #%d followed by %d early byte(s), 6 ways of cutting the stream into reads", ri, len(tr)) }, func() *explore.Fail {
+					t.Do(func() string {
+						return fmt.Sprintf("request #%d followed by %d early byte(s), 6 ways of cutting the stream into reads", ri, len(tr))
+					}, func() *explore.Fail {
 						data := []byte(req + tr)
 						first := ""
 						for _, chunk := range []int{0, 1, 7, len(req), len(req) + 1, len(req) - 1} {
@@ -430,6 +434,7 @@ func main() {
 				onReq    bool
 				onResp   bool
 				wrap     bool // Dialer.WrapConn set: a wrapper that transforms the byte stream
+				tls      bool // wss URL with a TLSClient layer (a byte transformation that does not commute with the wrapper's)
 			}
 			var cases []dcase
 			for _, cb := range []int{16, 64, 0} {
@@ -453,9 +458,12 @@ func main() {
 								continue
 							}
 							for _, cbs := range [][2]bool{{true, true}, {true, false}, {false, true}} {
-								cases = append(cases, dcase{cfg, tr, ch, cbs[0], cbs[1], false})
+								cases = append(cases, dcase{cfg, tr, ch, cbs[0], cbs[1], false, false})
 								if ch != 1 {
-									cases = append(cases, dcase{cfg, tr, ch, cbs[0], cbs[1], true})
+									cases = append(cases, dcase{cfg, tr, ch, cbs[0], cbs[1], true, false})
+								}
+								if ch == 0 && !strings.HasPrefix(cfg.sProto, "fail-") {
+									cases = append(cases, dcase{cfg, tr, ch, cbs[0], cbs[1], false, true}, dcase{cfg, tr, ch, cbs[0], cbs[1], true, true})
 								}
 							}
 						}
@@ -465,7 +473,7 @@ func main() {
 			t.Par(len(cases), func(i int) {
 				dc := cases[i]
 				t.Do(func() string {
-					return fmt.Sprintf("DebugDialer %s trailing=%d chunk=%d onRequest=%v onResponse=%v wrapConn=%v", dc.p, dc.trailing, dc.chunk, dc.onReq, dc.onResp, dc.wrap)
+					return fmt.Sprintf("DebugDialer %s trailing=%d chunk=%d onRequest=%v onResponse=%v wrapConn=%v wss-with-TLSClient=%v", dc.p, dc.trailing, dc.chunk, dc.onReq, dc.onResp, dc.wrap, dc.tls)
 				}, func() *explore.Fail {
 					trailing := make([]byte, dc.trailing)
 					for j := range trailing {
@@ -475,6 +483,9 @@ func main() {
 						var req, resp []byte
 						lc := &hs.LazyConn{Policy: env.FixedChunk(dc.chunk)}
 						lc.Respond = func(rq []byte) []byte {
+							if dc.tls {
+								rq = rotBytes(rq, 255) // the TLS layer is the one next to the wire
+							}
 							if dc.wrap {
 								rq = xorBytes(rq) // the wire carries what the user's wrapper made of it
 							}
@@ -510,10 +521,14 @@ func main() {
 							}
 							resp = append([]byte{}, out.Bytes()...)
 							out.Write(trailing)
+							wire := out.Bytes()
 							if dc.wrap {
-								return xorBytes(out.Bytes())
+								wire = xorBytes(wire)
 							}
-							return out.Bytes()
+							if dc.tls {
+								wire = rotBytes(wire, 1)
+							}
+							return wire
 						}
 						return &lazyNetConn{LazyConn: lc}, &req, &resp
 					}
@@ -524,7 +539,12 @@ func main() {
 					if dc.wrap {
 						pd.WrapConn = func(c net.Conn) net.Conn { return &xorConn{c} }
 					}
-					pc, pbr, phs, perr := pd.Dial(context.Background(), "ws://example.com/chat")
+					url := "ws://example.com/chat"
+					if dc.tls {
+						url = "wss://example.com/chat"
+						pd.TLSClient = func(c net.Conn, host string) net.Conn { return &rotConn{c} }
+					}
+					pc, pbr, phs, perr := pd.Dial(context.Background(), url)
 					// debug dialer
 					dconn, dreq, dresp := mk()
 					dd := wsutil.DebugDialer{Dialer: dc.p.dialer()}
@@ -539,7 +559,10 @@ func main() {
 					if dc.onResp {
 						dd.OnResponse = func(b []byte) { gotResp = append([]byte{}, b...) }
 					}
-					conn, br, dhs, derr := dd.Dial(context.Background(), "ws://example.com/chat")
+					if dc.tls {
+						dd.Dialer.TLSClient = func(c net.Conn, host string) net.Conn { return &rotConn{c} }
+					}
+					conn, br, dhs, derr := dd.Dial(context.Background(), url)
 					cls := fmt.Sprintf("ok=%v", perr == nil)
 					if (perr == nil) != (derr == nil) || (perr != nil && perr.Error() != derr.Error()) {
 						return explore.Failf("debug-changes-outcome:"+cls, "plain err=%v debug err=%v", perr, derr)
@@ -559,6 +582,22 @@ func main() {
 						}
 						if _, ok := conn.(*xorConn); !ok {
 							return explore.Failf("debug-dialer-returns-unwrapped-conn", "plain dialer returns %T, debug dialer %T", pc, conn)
+						}
+					}
+					if derr == nil && dc.tls {
+						// the connection handed back is the one the handshake was made on: the TLS layer,
+						// under the user's wrapper if there is one
+						inner := func(c net.Conn) net.Conn {
+							if x, ok := c.(*xorConn); ok && dc.wrap {
+								return x.Conn
+							}
+							return c
+						}
+						if _, ok := inner(pc).(*rotConn); !ok {
+							return explore.Failf("plain-dialer-returns-conn-without-TLS-layer", "%T", pc)
+						}
+						if _, ok := inner(conn).(*rotConn); !ok {
+							return explore.Failf("debug-dialer-returns-conn-without-TLS-layer", "plain dialer returns %T, debug dialer %T", pc, conn)
 						}
 					}
 					if derr == nil {
@@ -583,6 +622,96 @@ func main() {
 					return nil
 				})
 			})
+			// One DebugDialer value used for two connections, the second dialed before the
+			// application has read what the first server sent behind its response (more than the
+			// returned reader holds): each connection still yields exactly its own bytes, and each
+			// callback saw its own handshake.
+			for _, cb := range []int{16, 64, 0} {
+				for _, tr1 := range []int{1, realBuf(cb) + 1, 3*realBuf(cb) + 5} {
+					for _, tr2 := range []int{0, 7, 3*realBuf(cb) + 9} {
+						for _, ch := range []int{0, 7} {
+							for _, second := range []string{"accepted", "refused"} {
+								cb, tr1, tr2, ch, second := cb, tr1, tr2, ch, second
+								t.Do(func() string {
+									return fmt.Sprintf("DebugDialer (read buffer %d) dials twice: first server sends %d bytes behind its response, second (%s) %d; transport chunk=%d; first connection read after the second dial", cb, tr1, second, tr2, ch)
+								}, func() *explore.Fail {
+									cfg := pair{cProto: []string{"a"}, sProto: "a", cBuf: cb}
+									type peer struct {
+										conn     *lazyNetConn
+										resp     []byte
+										trailing []byte
+									}
+									mkPeer := func(n int, base byte, refuse bool) *peer {
+										pe := &peer{trailing: make([]byte, n)}
+										for j := range pe.trailing {
+											pe.trailing[j] = base + byte(j%40)
+										}
+										lc := &hs.LazyConn{Policy: env.FixedChunk(ch)}
+										lc.Respond = func(rq []byte) []byte {
+											var out bytes.Buffer
+											if refuse {
+												body := "come back later, the house is full"
+												fmt.Fprintf(&out, "HTTP/1.1 503 Service Unavailable\r\nContent-Length: %d\r\n\r\n%s", len(body), body)
+											} else {
+												cfg.upgrader().Upgrade(struct {
+													io.Reader
+													io.Writer
+												}{bytes.NewReader(rq), &out})
+											}
+											pe.resp = append([]byte{}, out.Bytes()...)
+											if !refuse {
+												out.Write(pe.trailing)
+											}
+											return out.Bytes()
+										}
+										pe.conn = &lazyNetConn{LazyConn: lc}
+										return pe
+									}
+									peers := []*peer{mkPeer(tr1, 0x20, false), mkPeer(tr2, 0xa0, second == "refused")}
+									dialed := 0
+									dd := wsutil.DebugDialer{Dialer: cfg.dialer()}
+									dd.Dialer.NetDial = func(ctx context.Context, n, a string) (net.Conn, error) {
+										dialed++
+										return peers[dialed-1].conn, nil
+									}
+									var gotResp [][]byte
+									dd.OnResponse = func(b []byte) { gotResp = append(gotResp, append([]byte{}, b...)) }
+									dd.OnRequest = func(b []byte) {}
+									conn1, br1, _, err1 := dd.Dial(context.Background(), "ws://example.com/chat")
+									if err1 != nil {
+										return explore.Failf("first-dial-fails", "%v", err1)
+									}
+									conn2, br2, _, err2 := dd.Dial(context.Background(), "ws://example.com/chat")
+									if (err2 != nil) != (second == "refused") {
+										return explore.Failf("second-dial-outcome", "%v", err2)
+									}
+									drain := func(c net.Conn, br *bufio.Reader) []byte {
+										var rd io.Reader = c
+										if br != nil {
+											rd = br
+										}
+										rest, _ := io.ReadAll(rd)
+										return rest
+									}
+									if rest := drain(conn1, br1); !bytes.Equal(rest, peers[0].trailing) {
+										return explore.Failf("second-dial-disturbs-first-connection", "first server sent %d bytes behind its response, reader+conn yield %d:\n got %x\nwant %x", tr1, len(rest), rest, peers[0].trailing)
+									}
+									if err2 == nil {
+										if rest := drain(conn2, br2); !bytes.Equal(rest, peers[1].trailing) {
+											return explore.Failf("second-connection-bytes", "got %x want %x", rest, peers[1].trailing)
+										}
+									}
+									if len(gotResp) != 2 || !bytes.Equal(gotResp[0], peers[0].resp) || !bytes.Equal(gotResp[1], peers[1].resp) {
+										return explore.Failf("OnResponse-bytes-two-dials", "got %q\nwant %q and %q", gotResp, peers[0].resp, peers[1].resp)
+									}
+									t.Outcome("two-dials-ok")
+									return nil
+								})
+							}
+						}
+					}
+				}
+			}
 			// DebugUpgrader
 			for _, cfg := range []pair{
 				{cProto: []string{"a", "b"}, sProto: "b", cExt: "pmd-cmwb", sExt: "flate1"},
@@ -654,6 +783,29 @@ func main() {
 		})
 	})
 }
+
+// rotConn stands for the TLS layer of a wss dial (Dialer.TLSClient): it adds 1 to every byte on the
+// way out and takes it off on the way in - a transformation that does not commute with xorConn's, so
+// the order of the two layers is visible on the wire.
+type rotConn struct{ net.Conn }
+
+func rotBytes(p []byte, k byte) []byte {
+	q := make([]byte, len(p))
+	for i, b := range p {
+		q[i] = b + k
+	}
+	return q
+}
+
+func (x *rotConn) Read(p []byte) (int, error) {
+	n, err := x.Conn.Read(p)
+	for i := 0; i < n; i++ {
+		p[i]--
+	}
+	return n, err
+}
+
+func (x *rotConn) Write(p []byte) (int, error) { return x.Conn.Write(rotBytes(p, 1)) }
 
 // xorConn is a user WrapConn layer that transforms the byte stream in both directions.
 type xorConn struct{ net.Conn }
@@ -740,4 +892,3 @@ func blankHeader(b []byte, name string) []byte {
 	out = append(out, bytes.Repeat([]byte{'#'}, j-len(name))...)
 	return append(out, b[i+j:]...)
 }
-
